@@ -40,7 +40,7 @@ def run(ctx):
     from ..harness import deriv
     H = 'vp.harness.deriv'
     C = []
-    for vi in ((0, 4, 8) if q else (0, 2, 4, 6, 8)):
+    for vi in (0, 4, 8):
         rules = deriv.RULES.get(vi) or []
         if q:
             n = 16 if vi == 4 else 6
@@ -48,12 +48,12 @@ def run(ctx):
                              [rules.index(r) for r in ('funcdef', 'type_params', 'eval_input', 'typedargslist', 'dictorsetmaker', 'import_from', 'fstring_format_spec', 'fstring_expr', 'atom')
                               if r in rules]))
         else:
-            idx = range(len(rules))
+            idx = range(len(rules)) if vi == 4 else range(vi % 4, len(rules), 4)
         for r in idx:
-            C.append(xh.Cond(H, 'deriv', timeout=300 if q else 1200, path_timeout=30, env={'VP_VERSIONS': '0,2,4,6,8'},
+            C.append(xh.Cond(H, 'deriv', timeout=300 if q else 900, path_timeout=30, env={'VP_VERSIONS': '0,2,4,6,8'},
                              name='deriv/%s/v%s' % (rules[r], deriv.VERSIONS[vi]),
-                             extra_pre=['vi == %d' % vi, 'r == %d' % r] + (['c3 < 3', 'c4 == 0'] if q else []),
+                             extra_pre=['vi == %d' % vi, 'r == %d' % r] + (['c3 < 3', 'c4 == 0'] if q else ['c4 < 2']),
                              bound='derivations from file_input and eval_input through rule %s with %s free arc choices' % (
-                                 rules[r], '6x6x3' if q else '6x6x6x6'),
+                                 rules[r], '6x6x3' if q else '6x6x6x2'),
                              realised='4 arc choices, start-rule flag (complete)'))
     xh.run_conditions(ctx, C)
